@@ -43,6 +43,10 @@ type c14Case struct {
 	OnlyRemote bool `json:"only_remote,omitempty"`
 	// Select (CLI only): another bug is the selected one (git-bug bug select) while the victim is removed by id
 	Select bool `json:"select,omitempty"`
+	// AfterPack (with Packed): what happens between the packing of the refs and the removal, so that a ref exists
+	// both as a loose file and in packed-refs: "" nothing, "edit" the victim gets one more commit, "fetch" its
+	// remotes are fetched again (which rewrites the remote-tracking refs as loose files)
+	AfterPack string `json:"after_pack,omitempty"`
 }
 
 func genC14(t *rapid.T) c14Case {
@@ -70,6 +74,9 @@ func genC14(t *rapid.T) c14Case {
 	}
 	c.OnlyRemote = c.Mode == "dag" && anyHolder && rapid.IntRange(0, 3).Draw(t, "onlyRemote") == 0
 	c.Select = c.Mode == "cli" && c.Others > 0 && rapid.Bool().Draw(t, "select")
+	if c.Packed {
+		c.AfterPack = rapid.SampledFrom([]string{"", "edit", "fetch"}).Draw(t, "afterPack")
+	}
 	return c
 }
 
@@ -219,6 +226,24 @@ func runC14(tb report.TB, rep *report.Reporter, c c14Case) {
 		if res := RunGit(main, "pack-refs", "--all"); res.Code != 0 {
 			tb.Fatalf("harness: git pack-refs: %s", res.Out)
 		}
+		switch {
+		case c.AfterPack == "edit" && c.Entity == "bug" && !c.OnlyRemote:
+			vb, err := bug.Read(repo, entity.Id(victimId))
+			if err != nil {
+				tb.Fatalf("harness: %v", err)
+			}
+			if _, _, err := bug.AddComment(vb, me, 9000, "one more comment after git gc", nil, nil); err != nil {
+				tb.Fatalf("harness: %v", err)
+			}
+			if err := vb.Commit(repo); err != nil {
+				tb.Fatalf("harness: %v", err)
+			}
+		case c.AfterPack == "fetch":
+			for _, rn := range remoteNames {
+				_, _ = identity.Fetch(repo, rn)
+				_, _ = bug.Fetch(repo, rn)
+			}
+		}
 	}
 	before := allRefs()
 	othersBefore, _ := readAllBugs(repo)
@@ -236,7 +261,7 @@ func runC14(tb report.TB, rep *report.Reporter, c c14Case) {
 	}
 	pushedClass := fmt.Sprintf("remotes:%d/holding:%d", c.NRemotes, holders)
 	rep.Case(fmt.Sprintf("%s|%s|%s|o%d|s%d|e%d", c.Entity, c.Mode, pushedClass, c.Others, c.SharePfx, c.Edits), holders >= 1 && c.Others >= 1,
-		[]string{"entity:" + c.Entity, "mode:" + c.Mode, pushedClass, fmt.Sprintf("packed-refs:%v", c.Packed), fmt.Sprintf("known-through-remote-tracking-refs-only:%v", c.OnlyRemote), fmt.Sprintf("another-bug-selected:%v", c.Select)}, c)
+		[]string{"entity:" + c.Entity, "mode:" + c.Mode, pushedClass, fmt.Sprintf("packed-refs:%v", c.Packed), fmt.Sprintf("known-through-remote-tracking-refs-only:%v", c.OnlyRemote), fmt.Sprintf("another-bug-selected:%v", c.Select), "after-packing:" + c.AfterPack}, c)
 
 	// ---- the removal
 	_ = repo.Close()
